@@ -164,6 +164,96 @@ type StatusView struct {
 	// the recorded encoding/json round trip of the literal)
 	Raw     *big.Int
 	RawType string
+	// JSON: the status object as it stands in the proof, when every member is representable
+	// for the Coq decoder (Top78.decode_cs); then the model decodes the object itself
+	JSON *JV
+}
+
+// JV is a JSON value as Top78.jv tells values apart.
+type JV struct {
+	Kind string // null | str | num | obj | bad
+	S    string
+	N    *big.Int
+	O    []JKV
+}
+type JKV struct {
+	K string
+	V *JV
+}
+
+var statusFields = []string{"id", "type", "revocationNonce", "statusIssuer"}
+
+// jvOf converts a value decoded with UseNumber; ok=false if it cannot be represented
+// faithfully (a number that is not a plain non-negative integer literal, a key that matches a
+// field name only case-insensitively, too deep).
+func jvOf(v any, depth int) (*JV, bool) {
+	if depth > 6 {
+		return nil, false
+	}
+	switch x := v.(type) {
+	case nil:
+		return &JV{Kind: "null"}, true
+	case string:
+		return &JV{Kind: "str", S: x}, true
+	case json.Number:
+		for _, c := range string(x) {
+			if c < '0' || c > '9' {
+				return nil, false
+			}
+		}
+		z, ok := new(big.Int).SetString(string(x), 10)
+		if !ok {
+			return nil, false
+		}
+		return &JV{Kind: "num", N: z}, true
+	case map[string]any:
+		o := &JV{Kind: "obj"}
+		for _, k := range sortedKeys(x) {
+			for _, f := range statusFields {
+				if strings.EqualFold(k, f) && k != f {
+					return nil, false
+				}
+			}
+			c, ok := jvOf(x[k], depth+1)
+			if !ok {
+				return nil, false
+			}
+			o.O = append(o.O, JKV{k, c})
+		}
+		return o, true
+	}
+	return &JV{Kind: "bad"}, true
+}
+
+func (j *JV) nums(out *[]*big.Int) {
+	if j.Kind == "num" {
+		*out = append(*out, j.N)
+	}
+	for _, kv := range j.O {
+		kv.V.nums(out)
+	}
+}
+
+func (j *JV) coq(f *coqgen.File) string {
+	switch j.Kind {
+	case "null":
+		return "RJNull"
+	case "str":
+		return "RJStr " + f.Str(j.S)
+	case "num":
+		return "RJNum " + coqgen.Limbs(j.N)
+	case "obj":
+		return "RJObj " + j.members(f)
+	}
+	return "RJBad"
+}
+
+func (j *JV) members(f *coqgen.File) string {
+	var ms []string
+	for _, kv := range j.O {
+		ms = append(ms, fmt.Sprintf("(%s, %s)", f.Str(kv.K), kv.V.coq(f)))
+	}
+	return "[" + strings.Join(ms, "; ") + "]"
 }
 
 type StateView struct{ Value, CTR, RTR, ROR Hexf }
@@ -286,6 +376,7 @@ func projectProof(credJSON []byte, vc *verifiable.W3CCredential, cp verifiable.C
 		v.MTP = rproofOf(p.IssuerData.MTP)
 		v.Status = statusViewOf(p.IssuerData.CredentialStatus)
 		v.Status.Raw, v.Status.RawType = rawNonceLiteral(credJSON, string(pt), idx)
+		v.Status.JSON = rawStatusJSON(credJSON, idx)
 	} else {
 		var p verifiable.Iden3SparseMerkleTreeProof
 		if err := json.Unmarshal(raw, &p); err != nil {
@@ -363,6 +454,39 @@ func rawNonceLiteral(credJSON []byte, proofType string, idx int) (*big.Int, stri
 		return z, cs["type"].(string)
 	}
 	return nil, ""
+}
+
+// rawStatusJSON finds issuerData.credentialStatus of the proof at position idx in the
+// credential text and converts it for the Coq decoder (nil if it is not an object or not
+// representable).
+func rawStatusJSON(credJSON []byte, idx int) *JV {
+	dec := json.NewDecoder(strings.NewReader(string(credJSON)))
+	dec.UseNumber()
+	var doc map[string]any
+	if err := dec.Decode(&doc); err != nil {
+		return nil
+	}
+	var proofs []any
+	switch p := doc["proof"].(type) {
+	case []any:
+		proofs = p
+	case map[string]any:
+		proofs = []any{p}
+	}
+	if idx >= len(proofs) {
+		return nil
+	}
+	po, _ := proofs[idx].(map[string]any)
+	idata, _ := po["issuerData"].(map[string]any)
+	cs, ok := idata["credentialStatus"].(map[string]any)
+	if !ok {
+		return nil
+	}
+	j, ok := jvOf(cs, 0)
+	if !ok {
+		return nil
+	}
+	return j
 }
 
 func statusViewOf(cs any) StatusView {
@@ -890,6 +1014,13 @@ func (s *Shard) bundleCoq(v *View) string {
 	sig := optLimbs(v.Sig)
 	status := "SOther"
 	switch {
+	case v.Status.JSON != nil:
+		var ns []*big.Int
+		v.Status.JSON.nums(&ns)
+		for _, n := range ns {
+			s.Rec.JSONRoundTrip(n)
+		}
+		status = "(SJson " + v.Status.JSON.members(s.F) + ")"
 	case v.Status.Raw != nil:
 		s.Rec.JSONRoundTrip(v.Status.Raw)
 		status = fmt.Sprintf("(SRaw %s %s)", s.F.Str(v.Status.RawType), coqgen.Limbs(v.Status.Raw))
